@@ -1,10 +1,72 @@
 import SV.Driver.Util
-/- svdriver_c19: line protocol for the C19 model (stub until the model is built). -/
+import SV.Model.Convert
+/-
+svdriver_c19: line protocol for the C19 model (SV/Model/Convert.lean).
+  rows                              -> <number of rows of the media-type table = |Target.all| * |MT.all|>
+  mt <target> <hex media type>      -> nil | ok <hex media type> | err | panic      (outMediaType)
+       target: esgz | zstdchunked | exttoc | exttoc-lossless
+  reset                             -> ok                                           (fresh esgzDigest2TOC)
+  put <layer> <toc> <size>          -> ok n=<entries>                               (one atomic map write)
+  finalize                          -> layers=<toc>:<size>:<layer>,...  | layers=-  (manifest layers, sorted by TOC digest)
+  fetch <layer>                     -> toc=<toc>:<size> | notfound                  (fetchTOCBlobFromManifest)
+Digests are 64 hex digits (the part after "sha256:").
+-/
 namespace SV.Driver.C19
+open SV.Driver SV.Convert
 
-def step (s : Unit) : List String → Unit × String
+structure St where
+  m : TocMap := []
+
+def parseTarget? : String → Option Target
+  | "esgz" => some .esgz
+  | "zstdchunked" => some .zstdchunked
+  | "exttoc" => some .extToc
+  | "exttoc-lossless" => some .extTocLossless
+  | _ => none
+
+/-- 64 hex digits → number. -/
+def parseDigest? (s : String) : Option Nat :=
+  if s.length ≠ 64 then none else
+  s.toList.foldlM (fun acc c => (hexDigit c).map fun d => acc * 16 + d) 0
+
+def showDigest (n : Nat) : String :=
+  let rec go : Nat → Nat → List Char → List Char
+    | 0, _, acc => acc
+    | k + 1, n, acc => go k (n / 16) (hexNib (n % 16) :: acc)
+  String.ofList (go 64 n [])
+
+def showMTOut : MTOut → String
+  | .untouched => "nil"
+  | .ok m => s!"ok {hexStr m.str}"
+  | .err => "err"
+  | .panic => "panic"
+
+def step (s : St) : List String → St × String
+  | ["rows"] => (s, toString (Target.all.length * MT.all.length))
+  | ["mt", t, m] =>
+    match parseTarget? t, (unhexStr? m).bind MT.ofStr? with
+    | some t, some m => (s, showMTOut (outMediaType t m))
+    | _, _ => (s, "bad-op")
+  | ["reset"] => ({ s with m := [] }, "ok")
+  | ["put", l, t, sz] =>
+    match parseDigest? l, parseDigest? t, parseNat? sz with
+    | some l, some t, some sz =>
+      let m := TocMap.put l ⟨t, sz⟩ s.m
+      ({ s with m := m }, s!"ok n={m.length}")
+    | _, _, _ => (s, "bad-op")
+  | ["finalize"] =>
+    let ls := finalize s.m
+    if ls.isEmpty then (s, "layers=-") else
+    (s, "layers=" ++ ",".intercalate (ls.map fun l => s!"{showDigest l.toc.digest}:{l.toc.size}:{showDigest l.layer}"))
+  | ["fetch", l] =>
+    match parseDigest? l with
+    | some l =>
+      match fetchToc (finalize s.m) l with
+      | some t => (s, s!"toc={showDigest t.digest}:{t.size}")
+      | none => (s, "notfound")
+    | none => (s, "bad-op")
   | _ => (s, "bad-op")
 
 end SV.Driver.C19
 
-def main : IO Unit := SV.Driver.loop SV.Driver.C19.step ()
+def main : IO Unit := SV.Driver.loop SV.Driver.C19.step {}
